@@ -29,7 +29,7 @@ public:
     int size = forest->getDomain()->getNumVariables();
 
     // Transpose order
-    int* var2level = new int[size];
+    int* var2level = new int[size + 1];    // indexed by variable 1..size
     var2level[0] = 0;
     for (int i = 1; i <= size; i++) {
       var2level[level2var[i]] = i;
